@@ -24,7 +24,7 @@ Passes (all work on a deep copy of the function; /repo is never touched):
 Comparison helpers: `lin` (integer-linear normal form: commuted / re-associated index expressions), `canon`
 (canonical text modulo commutativity of `+`/`*`, slice defaults, linear index expressions, mirrored comparisons),
 `iter_norm` (`range(n)`, `range(0, n, 1)`, `xp.arange(n)`; `reversed(range(n))`, `range(n - 1, -1, -1)`),
-`guard_ge` (an integer guard as `linear form >= 0`).
+`guard_ge` (an integer guard as `linear form >= 0`; only there `not (a < b)` is read as `a >= b`: NaN).
 """
 import ast
 import copy
@@ -302,26 +302,30 @@ def norm_calls(fn):
 
 
 # ------------------------------------------------------------------------------------------------ guards
-FLIP = {ast.Lt: ast.GtE, ast.LtE: ast.Gt, ast.Gt: ast.LtE, ast.GtE: ast.Lt, ast.Eq: ast.NotEq, ast.NotEq: ast.Eq,
-        ast.Is: ast.IsNot, ast.IsNot: ast.Is, ast.In: ast.NotIn, ast.NotIn: ast.In}
+# `not (a == b)` is `a != b` etc. for every operand type python's own objects / numpy scalars have (NaN included);
+# `not (a < b)` is `a >= b` only for integers (NaN!): flipped only where the caller knows the operands are ints
+FLIP = {ast.Eq: ast.NotEq, ast.NotEq: ast.Eq, ast.Is: ast.IsNot, ast.IsNot: ast.Is, ast.In: ast.NotIn, ast.NotIn: ast.In}
+FLIP_INT = dict(FLIP)
+FLIP_INT.update({ast.Lt: ast.GtE, ast.LtE: ast.Gt, ast.Gt: ast.LtE, ast.GtE: ast.Lt})
 
 
-def negate(t):
-    """logical negation with the negation pushed inwards; operand order of and/or kept"""
+def negate(t, ints=False):
+    """logical negation with the negation pushed inwards (De Morgan); operand order of and/or kept"""
+    flip = FLIP_INT if ints else FLIP
     if isinstance(t, ast.UnaryOp) and isinstance(t.op, ast.Not):
-        return nnf(t.operand)
+        return nnf(t.operand, ints)
     if isinstance(t, ast.BoolOp):
-        return ast.BoolOp(op=ast.Or() if isinstance(t.op, ast.And) else ast.And(), values=[negate(v) for v in t.values])
-    if isinstance(t, ast.Compare) and len(t.ops) == 1 and type(t.ops[0]) in FLIP:
-        return ast.Compare(left=t.left, ops=[FLIP[type(t.ops[0])]()], comparators=t.comparators)
+        return ast.BoolOp(op=ast.Or() if isinstance(t.op, ast.And) else ast.And(), values=[negate(v, ints) for v in t.values])
+    if isinstance(t, ast.Compare) and len(t.ops) == 1 and type(t.ops[0]) in flip:
+        return ast.Compare(left=t.left, ops=[flip[type(t.ops[0])]()], comparators=t.comparators)
     return ast.UnaryOp(op=ast.Not(), operand=t)
 
 
-def nnf(t):
+def nnf(t, ints=False):
     if isinstance(t, ast.UnaryOp) and isinstance(t.op, ast.Not):
-        return negate(t.operand)
+        return negate(t.operand, ints)
     if isinstance(t, ast.BoolOp):
-        return ast.BoolOp(op=t.op, values=[nnf(v) for v in t.values])
+        return ast.BoolOp(op=t.op, values=[nnf(v, ints) for v in t.values])
     return t
 
 
@@ -590,8 +594,8 @@ def iter_norm(it):
 
 
 def guard_ge(t):
-    """an integer comparison as `linear form >= 0` (text), or None"""
-    t = nnf(t)
+    """a comparison of INTEGER expressions (the caller knows: loop counters, sizes) as `linear form >= 0`, or None"""
+    t = nnf(t, ints=True)
     if not (isinstance(t, ast.Compare) and len(t.ops) == 1):
         return None
     a, b = lin(t.left), lin(t.comparators[0])
